@@ -1,9 +1,341 @@
-import Model.Common
-/-! Oracle handlers for C12 (stub until the property's model exists). -/
-namespace OracleC12
-open Common
+import Model.C12
+/-!
+Oracle handlers for C12.
 
-def handle (_cmd : String) (_f : List String) : String × String × String :=
-  ("unknown-cmd", "-", "-")
+`diff`  : the model's observation where it differs from the implementation's.
+`judge` : the property statement evaluated on the implementation's own answers (never via `C12.shard`):
+          members ⊆ ring, no read-only member, per-zone size `min(⌈size/zones⌉, eligible)`, equal answers for
+          rings that differ only in State/Timestamp/Addr/Versions, `shard s ⊆ shard s'` for `s ≤ s'`,
+          at most one instance in and one out after a single add / remove / read-only toggle,
+          look-back ⊇ plain shard, look-back ⊇ every still-registered member of a plain shard seen
+          at some moment of the window.
+
+Case kinds (TAB separated fields after the command):
+* `C12.shard  za desc ident streams s s2 period now op rp | A B C D E`
+* `C12.hist   za ident streams s period snaps | As Ls`
+* `C12.pshard parts ident stream s s2 period now op | A B C E`
+* `C12.phist  ident stream s period snaps | As Ls`
+-/
+namespace OracleC12
+open Common Ring C12
+
+/-! ### parsing helpers -/
+
+def strLe (a b : String) : Bool := decide (a ≤ b)
+def sortStr (l : List String) : List String := l.mergeSort strLe
+
+def parseIds (s : String) : List String := if s == "-" || s == "" then [] else (s.splitOn ",").map str?
+def showIds (l : List String) : String := if l.isEmpty then "-" else ",".intercalate ((sortStr l).map showStr)
+def canonIds (s : String) : String := showIds (parseIds s)
+
+def subset (a b : List String) : Bool := a.all b.contains
+def sdiff (a b : List String) : List String := a.filter fun x => !b.contains x
+def dedup (l : List String) : List String := l.foldr (fun x acc => if acc.contains x then acc else x :: acc) []
+
+def parseStreams (s : String) : Option (List (String × Array Nat)) :=
+  if s == "-" then some [] else
+  (s.splitOn "|").mapM fun p => match p.splitOn "=" with
+    | [z, vs] => do pure (str? z, (← natList? vs).toArray)
+    | _ => none
+
+def startsFn (st : List (String × Array Nat)) : String → Nat → Nat := fun z i =>
+  match st.lookup z with
+  | some a => a.getD i 0
+  | none => 0
+
+inductive Op
+  | none
+  | rm (id : String)
+  | add (i : Inst)
+  | ro (id : String) (flag : Bool) (ts : Int)
+
+def parseOp (s : String) : Option Op :=
+  if s == "none" then some .none
+  else if s.startsWith "rm:" then some (.rm (str? (s.drop 3).toString))
+  else if s.startsWith "add:" then (parseInst (s.drop 4).toString).map .add
+  else if s.startsWith "ro:" then
+    match (s.drop 3).toString.splitOn ":" with
+    | [id, f, ts] => ts.toInt?.map fun t => .ro (str? id) (f == "1") t
+    | _ => Option.none
+  else Option.none
+
+def insertById (i : Inst) : Desc → Desc
+  | [] => [i]
+  | y :: ys => if strLe i.id y.id then i :: y :: ys else y :: insertById i ys
+
+def applyOp (d : Desc) : Op → Desc
+  | .none => d
+  | .rm id => d.filter fun i => i.id != id
+  | .add i => insertById i d
+  | .ro id f ts => d.map fun i => if i.id == id then { i with ro := f, roTs := ts } else i
+
+def opTag : Op → String
+  | .none => "none" | .rm _ => "rm" | .add _ => "add" | .ro _ _ _ => "ro"
+
+/-! ### judge helpers (written from the property text) -/
+
+def zonesIn (d : Desc) : List String := dedup (d.map (·.zone))
+def eligible (d : Desc) : Desc := d.filter fun i => !i.ro
+def hasTokenless (d : Desc) : Bool := d.any fun i => i.tokens.isEmpty
+def ceilDiv (a b : Nat) : Nat := if b == 0 then 0 else (a + b - 1) / b
+
+/-- reasons why `obs` is not a legal plain shard of size `s` of ring `d`. -/
+def checkPlain (za : Bool) (d : Desc) (s : Int) (obs : List String) (what : String) : List String :=
+  let ids := d.map (·.id)
+  let r1 := if subset obs ids then [] else ["subset" ++ what]
+  let r2 := if obs.all fun m => (d.find? (·.id == m)).all fun i => !i.ro then [] else ["readonly" ++ what]
+  let r3 :=
+    if hasTokenless d then []
+    else if s ≤ 0 then
+      (if sortStr obs == sortStr ((eligible d).map (·.id)) then [] else ["size" ++ what])
+    else if za then
+      let zs := zonesIn d
+      let per := ceilDiv s.toNat zs.length
+      if zs.all fun z =>
+        let el := ((eligible d).filter (·.zone == z)).map (·.id)
+        (obs.filter el.contains).length == min per el.length
+      then [] else ["size" ++ what]
+    else
+      if obs.length == min s.toNat (eligible d).length then [] else ["size" ++ what]
+  r1 ++ r2 ++ r3
+
+/-- order of requested sizes: `size ≤ 0` means "no sharding = everything". -/
+def sizeLe (s s2 : Int) : Bool := if s2 ≤ 0 then true else if s ≤ 0 then false else decide (s ≤ s2)
+
+def coreEq (a b : Desc) : Bool := a.map core == b.map core
+
+def bucket (n : Nat) : String :=
+  if n ≤ 1 then toString n else if n ≤ 3 then "2-3" else if n ≤ 8 then "4-8" else if n ≤ 20 then "9-20" else "21+"
+
+def firstDiff : List (String × String × String) → String
+  | [] => "-"
+  | (lbl, model, impl) :: rest => if model == impl then firstDiff rest else lbl ++ "=" ++ model
+
+def reasons (l : List String) : String := if l.isEmpty then "-" else ",".intercalate (dedup l)
+
+/-! ### C12.shard -/
+
+def handleShard (f : List String) : String × String × String :=
+  match f with
+  | [za, desc, _ident, streams, s, s2, period, now, op, rp, oA, oB, oC, oD, oE] =>
+    match parseDesc desc, parseStreams streams, s.toInt?, s2.toInt?, period.toInt?, now.toInt?, parseOp op, parseDesc rp with
+    | some d, some st, some s, some s2, some period, some now, some op, some rp =>
+      let za := za == "1"
+      let cfg : Cfg := ⟨za⟩
+      let starts := startsFn st
+      let d' := applyOp d op
+      let mA := showIds (shardIds cfg d starts s 0 now)
+      let mB := showIds (shardIds cfg d starts s2 0 now)
+      let mC := showIds (shardIds cfg d' starts s 0 now)
+      let mD := showIds (shardIds cfg rp starts s 0 now)
+      let mE := showIds (shardIds cfg d starts s period now)
+      let diff := firstDiff [("A", mA, canonIds oA), ("B", mB, canonIds oB), ("C", mC, canonIds oC),
+                             ("D", mD, canonIds oD), ("E", mE, canonIds oE)]
+      -- judge on the implementation's answers
+      let A := parseIds oA; let B := parseIds oB; let C := parseIds oC; let D := parseIds oD; let E := parseIds oE
+      let tokless := hasTokenless d || hasTokenless d'
+      -- input class of finding F2 (sizes whose float64 conversion overflows): own reason keys
+      let nm := fun (x : Int) => if za && nearMaxInt x then "_nearmaxint" else ""
+      let j1 := checkPlain za d s A (nm s) ++ checkPlain za d s2 B ("_s2" ++ nm s2) ++ checkPlain za d' s C ("_r2" ++ nm s) ++ checkPlain za rp s D ("_rp" ++ nm s)
+      let j2 := if coreEq d rp && sortStr A != sortStr D then ["determinism"] else []
+      let j3 := if sizeLe s s2 && !subset A B then ["mono" ++ nm s ++ nm s2] else []
+      let zc := (zonesIn d).length != (zonesIn d').length
+      let changed := (sdiff C A).length > 1 || (sdiff A C).length > 1
+      let j4 :=
+        if tokless || !changed then []
+        else match op with
+          | .none => ["one_change"]
+          | .ro _ _ _ => ["one_change_ro"]
+          | _ => if za && zc then ["one_change_zonecount"] else ["one_change"]
+      let j5 := (if subset A E then [] else ["lookback_superset" ++ nm s]) ++ (if subset E (d.map (·.id)) then [] else ["subset_lb"])
+      let n := d.length
+      let eln := (eligible d).length
+      let szc := if s ≤ 0 then "le0" else if s.toNat < n then "lt" else if s.toNat == n then "eq" else "gt"
+      let sel := if A.isEmpty then "empty" else if A.length == eln then "all" else "proper"
+      let tags := s!"k=shard za={if za then 1 else 0} n={bucket n} zones={(zonesIn d).length} size={szc} op={opTag op} ro={if eln < n then 1 else 0} lb={if period > 0 then 1 else 0} lbext={if E.length > A.length then 1 else 0} sel={sel} moved={if sortStr A != sortStr C then 1 else 0} tokless={if tokless then 1 else 0} nearmax={if nearMaxInt s || nearMaxInt s2 then 1 else 0} zc={if zc then 1 else 0} triv={if n ≤ 1 then 1 else 0}"
+      (diff, reasons (j1 ++ j2 ++ j3 ++ j4 ++ j5), tags)
+    | _, _, _, _, _, _, _, _ => ("parse-error", "-", "-")
+  | _ => ("bad-arity", "-", "-")
+
+/-! ### C12.hist : snaps = `t@size@desc|…` -/
+
+def parseSnap (s : String) : Option (Int × Int × Desc) :=
+  match s.splitOn "@" with
+  | [t, sz, d] => do pure ((← t.toInt?), (← sz.toInt?), (← parseDesc d))
+  | _ => none
+
+/-- indexes `j ≤ k` whose ring state existed at some moment of the window `[t_k - period, t_k]`. -/
+def windowIdx (ts : List Int) (k : Nat) (period : Int) : List Nat :=
+  match ts[k]? with
+  | none => []
+  | some tk =>
+    let til := tk - period
+    let idx := (List.range (k + 1))
+    let inside := idx.filter fun j => (ts[j]?.map fun t => decide (t ≥ til)).getD false
+    let before := (idx.filter fun j => (ts[j]?.map fun t => decide (t < til)).getD false)
+    match before.getLast? with
+    | some j => j :: inside
+    | none => inside
+
+def handleHist (f : List String) : String × String × String :=
+  match f with
+  | [za, _ident, streams, s, period, snaps, oAs, oLs] =>
+    match parseStreams streams, s.toInt?, period.toInt?, (snaps.splitOn "|").mapM parseSnap with
+    | some st, some s, some period, some sn =>
+      let za := za == "1"
+      let cfg : Cfg := ⟨za⟩
+      let starts := startsFn st
+      let mAs := sn.map fun (t, sz, d) => showIds (shardIds cfg d starts sz 0 t)
+      let mLs := sn.map fun (t, _, d) => showIds (shardIds cfg d starts s period t)
+      let iAs := (oAs.splitOn "|").map canonIds
+      let iLs := (oLs.splitOn "|").map canonIds
+      let diff := if mAs != iAs then "As=" ++ "|".intercalate mAs else if mLs != iLs then "Ls=" ++ "|".intercalate mLs else "-"
+      let A := (oAs.splitOn "|").map parseIds
+      let L := (oLs.splitOn "|").map parseIds
+      let ts := sn.map (·.1)
+      let ds := sn.map (·.2.2)
+      let zcount := ds.map fun d => (zonesIn d).length
+      let tokless := ds.any hasTokenless
+      let ks := List.range sn.length
+      let bad := ks.flatMap fun k =>
+        let ids := (ds[k]?.getD []).map (·.id)
+        let Lk := L[k]?.getD []
+        (windowIdx ts k period).filterMap fun j =>
+          let Aj := (A[j]?.getD []).filter ids.contains
+          if subset Aj Lk then none
+          else
+            let zchg := (List.range (k + 1)).any fun m => decide (j ≤ m) && zcount[m]? != zcount[k]?
+            some (if za && zchg then "lookback_window_zonecount" else "lookback_window")
+      let bad := if tokless then [] else bad
+      let ext := ks.any fun k => (L[k]?.getD []).length > (A[k]?.getD []).length
+      let tags := s!"k=hist za={if za then 1 else 0} steps={bucket sn.length} lbext={if ext then 1 else 0} zc={if (dedup (zcount.map toString)).length > 1 then 1 else 0} triv=0"
+      (diff, reasons bad, tags)
+    | _, _, _, _ => ("parse-error", "-", "-")
+  | _ => ("bad-arity", "-", "-")
+
+/-! ### partition ring -/
+
+def PState.ofCode : String → Option PState
+  | "U" => some .unknown | "P" => some .pending | "A" => some .active | "I" => some .inactive | "D" => some .deleted
+  | _ => none
+
+def parsePart (s : String) : Option Part :=
+  match s.splitOn "/" with
+  | [id, st, ts, toks] => do pure ⟨(← id.toInt?), (← PState.ofCode st), (← ts.toInt?), (← natList? toks)⟩
+  | _ => none
+
+def parseParts (s : String) : Option (List Part) := if s == "-" then some [] else (s.splitOn ";").mapM parsePart
+
+def parseInts (s : String) : List Int := if s == "-" || s == "" then [] else (s.splitOn ",").filterMap String.toInt?
+def sortInt (l : List Int) : List Int := l.mergeSort fun a b => decide (a ≤ b)
+def showInts (l : List Int) : String := if l.isEmpty then "-" else ",".intercalate ((sortInt l).map toString)
+def canonInts (s : String) : String := showInts (parseInts s)
+def isubset (a b : List Int) : Bool := a.all b.contains
+def idiff (a b : List Int) : List Int := a.filter fun x => !b.contains x
+
+inductive POp
+  | none
+  | rm (id : Int)
+  | add (p : Part)
+  | st (id : Int) (s : PState) (ts : Int)
+
+def parsePOp (s : String) : Option POp :=
+  if s == "none" then some .none
+  else if s.startsWith "rm:" then (s.drop 3).toString.toInt?.map .rm
+  else if s.startsWith "add:" then (parsePart (s.drop 4).toString).map .add
+  else if s.startsWith "st:" then
+    match (s.drop 3).toString.splitOn ":" with
+    | [id, c, ts] => do pure (.st (← id.toInt?) (← PState.ofCode c) (← ts.toInt?))
+    | _ => Option.none
+  else Option.none
+
+def insertPart (p : Part) : List Part → List Part
+  | [] => [p]
+  | y :: ys => if p.id ≤ y.id then p :: y :: ys else y :: insertPart p ys
+
+def applyPOp (ps : List Part) : POp → List Part
+  | .none => ps
+  | .rm id => ps.filter fun p => p.id != id
+  | .add p => insertPart p ps
+  | .st id s ts => ps.map fun p => if p.id == id then { p with state := s, stateTs := ts } else p
+
+def pOpTag : POp → String
+  | .none => "none" | .rm _ => "rm" | .add _ => "add" | .st _ _ _ => "st"
+
+def activeIds (ps : List Part) : List Int := (ps.filter fun p => p.state == .active).map (·.id)
+
+def checkPPlain (ps : List Part) (s : Int) (obs : List Int) (what : String) : List String :=
+  let act := activeIds ps
+  let r1 := if isubset obs act then [] else ["p_active_only" ++ what]
+  let want := if s ≤ 0 then act.length else min s.toNat act.length
+  let r2 := if obs.length == want then [] else ["p_size" ++ what]
+  r1 ++ r2
+
+def startsArr (s : String) : Option (Nat → Nat) :=
+  (natList? s).map fun l => let a := l.toArray; fun i => a.getD i 0
+
+def handlePShard (f : List String) : String × String × String :=
+  match f with
+  | [parts, _ident, stream, s, s2, period, now, op, oA, oB, oC, oE] =>
+    match parseParts parts, startsArr stream, s.toInt?, s2.toInt?, period.toInt?, now.toInt?, parsePOp op with
+    | some ps, some starts, some s, some s2, some period, some now, some op =>
+      let ps' := applyPOp ps op
+      let mA := showInts (pshard ps starts s 0 now)
+      let mB := showInts (pshard ps starts s2 0 now)
+      let mC := showInts (pshard ps' starts s 0 now)
+      let mE := showInts (pshard ps starts s period now)
+      let diff := firstDiff [("A", mA, canonInts oA), ("B", mB, canonInts oB), ("C", mC, canonInts oC), ("E", mE, canonInts oE)]
+      let A := parseInts oA; let B := parseInts oB; let C := parseInts oC; let E := parseInts oE
+      let j1 := checkPPlain ps s A "" ++ checkPPlain ps s2 B "_s2" ++ checkPPlain ps' s C "_r2"
+      let j3 := if sizeLe s s2 && !isubset A B then ["p_mono"] else []
+      let j4 := if (idiff C A).length > 1 || (idiff A C).length > 1 then ["p_one_change"] else []
+      let j5 := (if isubset A E then [] else ["p_lookback_superset"]) ++
+                (if isubset E (ps.map (·.id)) && E.all (fun m => (ps.find? (·.id == m)).all fun p => p.state != .pending) then [] else ["p_lookback_members"])
+      let n := ps.length
+      let act := (activeIds ps).length
+      let szc := if s ≤ 0 then "le0" else if s.toNat < act then "lt" else if s.toNat == act then "eq" else "gt"
+      let tags := s!"k=pshard n={bucket n} active={bucket act} size={szc} op={pOpTag op} lb={if period > 0 then 1 else 0} lbext={if E.length > A.length then 1 else 0} moved={if sortInt A != sortInt C then 1 else 0} triv={if n ≤ 1 then 1 else 0}"
+      (diff, reasons (j1 ++ j3 ++ j4 ++ j5), tags)
+    | _, _, _, _, _, _, _ => ("parse-error", "-", "-")
+  | _ => ("bad-arity", "-", "-")
+
+def parsePSnap (s : String) : Option (Int × Int × List Part) :=
+  match s.splitOn "@" with
+  | [t, sz, d] => do pure ((← t.toInt?), (← sz.toInt?), (← parseParts d))
+  | _ => none
+
+def handlePHist (f : List String) : String × String × String :=
+  match f with
+  | [_ident, stream, s, period, snaps, oAs, oLs] =>
+    match startsArr stream, s.toInt?, period.toInt?, (snaps.splitOn "|").mapM parsePSnap with
+    | some starts, some s, some period, some sn =>
+      let mAs := sn.map fun (t, sz, d) => showInts (pshard d starts sz 0 t)
+      let mLs := sn.map fun (t, _, d) => showInts (pshard d starts s period t)
+      let iAs := (oAs.splitOn "|").map canonInts
+      let iLs := (oLs.splitOn "|").map canonInts
+      let diff := if mAs != iAs then "As=" ++ "|".intercalate mAs else if mLs != iLs then "Ls=" ++ "|".intercalate mLs else "-"
+      let A := (oAs.splitOn "|").map parseInts
+      let L := (oLs.splitOn "|").map parseInts
+      let ts := sn.map (·.1)
+      let ds := sn.map (·.2.2)
+      let ks := List.range sn.length
+      let bad := ks.flatMap fun k =>
+        let ids := (ds[k]?.getD []).map (·.id)
+        let Lk := L[k]?.getD []
+        (windowIdx ts k period).filterMap fun j =>
+          let Aj := (A[j]?.getD []).filter ids.contains
+          if isubset Aj Lk then none else some "p_lookback_window"
+      let ext := ks.any fun k => (L[k]?.getD []).length > (A[k]?.getD []).length
+      let tags := s!"k=phist steps={bucket sn.length} lbext={if ext then 1 else 0} triv=0"
+      (diff, reasons bad, tags)
+    | _, _, _, _ => ("parse-error", "-", "-")
+  | _ => ("bad-arity", "-", "-")
+
+def handle (cmd : String) (f : List String) : String × String × String :=
+  if cmd == "C12.shard" then handleShard f
+  else if cmd == "C12.hist" then handleHist f
+  else if cmd == "C12.pshard" then handlePShard f
+  else if cmd == "C12.phist" then handlePHist f
+  else ("unknown-cmd", "-", "-")
 
 end OracleC12
